@@ -20,10 +20,14 @@ package crypto
 //@   fresh ret0
 
 // C02: the Ed25519 implementation of the key interfaces, on its own fields.
+// (the type invariant of key objects - 32 / 64 key bytes, established by every constructor, C11 - is
+// the precondition under which the standard library calls do not panic)
 //@ func (*Ed25519PublicKey).Verify
+//@   requires len(k.k) == 32
 //@   ensures ret1 == nil && ret0 == edVerify(k.k, data, sig)
 
 //@ func (*Ed25519PrivateKey).Sign
+//@   requires len(k.k) == 64
 //@   ensures ret1 == nil && content(ret0) == edSign(k.k, msg)
 
 // Type invariant of Ed25519 key objects (established by every constructor): the
